@@ -75,9 +75,9 @@ def main():
             res = mutants.catalogue(only=args.only.split(",") if args.only else None, tests=args.tests)
             bad = [r for r in res if not r["as_expected"]]
             print(json.dumps(res, indent=1))
-            out_dir = os.path.join(runner.VERIF, "selftest_results")
+            out_dir = os.path.join(runner.VERIF, "sensitivity")
             os.makedirs(out_dir, exist_ok=True)
-            path = os.path.join(out_dir, "sensitivity.json")
+            path = os.path.join(out_dir, "catalogue.json")
             merged = {}
             if os.path.exists(path):
                 with open(path, encoding="utf-8") as fh:
